@@ -221,6 +221,34 @@ def put (t : T) (e : Entry) : T × Outcome :=
     let (n, recs) := removePrefixFiltered t.records e
     (entryPut { t with records := recs } e, .inserted n)
 
+inductive InsertResult where
+  | inserted (removed : Nat)
+  | notInserted
+  | notFound
+  | readOnly
+deriving Repr, DecidableEq
+
+/-- `Store::open_replica` + `Replica::insert_remote_entry` of an entry that passes validation:
+the document has to exist; any capability will do. -/
+def remotePut (t : T) (e : Entry) : T × InsertResult :=
+  match (t.namespaces.find? (fun r => r.1 == e.ns)) with
+  | none => (t, .notFound)
+  | some _ =>
+    match put t e with
+    | (t', .inserted n) => (t', .inserted n)
+    | (t', .notInserted) => (t', .notInserted)
+
+/-- `Store::open_replica` + `Replica::insert` / `delete_prefix`: the stored capability has to be
+a write capability (kind 1). -/
+def localPut (t : T) (e : Entry) : T × InsertResult :=
+  match (t.namespaces.find? (fun r => r.1 == e.ns)) with
+  | none => (t, .notFound)
+  | some (_, kind, _) =>
+    if kind ≠ 1 then (t, .readOnly) else
+    match put t e with
+    | (t', .inserted n) => (t', .inserted n)
+    | (t', .notInserted) => (t', .notInserted)
+
 /-! ## `StoreInstance` range primitives (for namespace `ns`) -/
 
 /-- `get_first`: id bytes of the first record of the namespace, or the all-zero default id -/
@@ -371,27 +399,47 @@ def peerInsertSorted (v : Nat × Bytes) : List (Nat × Bytes) → List (Nat × B
 def setPeersOf (t : T) (ns : Bytes) (vs : List (Nat × Bytes)) : T :=
   { t with peers := t.peers.filter (fun r => r.1 != ns) ++ vs.map (fun v => (ns, v)) }
 
-/-- `register_useful_peer`, branch by branch; `none` = "document not created" -/
+/-- the branches of `register_useful_peer` on the document's value set (ascending by `(nanos, peer)`) -/
+def regStep (cur : List (Nat × Bytes)) (nanos : Nat) (peer : Bytes) : List (Nat × Bytes) :=
+  match cur with
+  | [] => [(nanos, peer)]
+  | (oldestNanos, oldestPeer) :: rest =>
+    if oldestPeer = peer then
+      -- the oldest entry is this peer: replace it
+      peerInsertSorted (nanos, peer) (cur.filter (· != (oldestNanos, oldestPeer)))
+    else
+      let len := 1 + rest.length
+      match rest.find? (fun v => v.2 == peer) with
+      | some (prevNanos, _) =>
+        -- the peer was present: replace its entry
+        peerInsertSorted (nanos, peer) (cur.filter (· != (prevNanos, peer)))
+      | none =>
+        -- a new peer: add it and evict the oldest if the cache is over its size
+        let ins := peerInsertSorted (nanos, peer) cur
+        if len + 1 > 5 then ins.filter (· != (oldestNanos, oldestPeer)) else ins
+
+/-- `register_useful_peer`; `none` = "document not created" -/
 def registerUsefulPeer (t : T) (ns : Bytes) (nanos : Nat) (peer : Bytes) : Option T :=
   match nsGet t ns with
   | none => none
-  | some _ =>
-    let cur := peersOf t ns
-    match cur with
-    | [] => some (setPeersOf t ns [(nanos, peer)])
-    | (oldestNanos, oldestPeer) :: rest =>
-      if oldestPeer = peer then
-        some (setPeersOf t ns (peerInsertSorted (nanos, peer) (cur.filter (· != (oldestNanos, oldestPeer)))))
-      else
-        let len := 1 + rest.length
-        match rest.find? (fun v => v.2 == peer) with
-        | some (prevNanos, _) =>
-          some (setPeersOf t ns (peerInsertSorted (nanos, peer) (cur.filter (· != (prevNanos, peer)))))
-        | none =>
-          let ins := peerInsertSorted (nanos, peer) cur
-          -- a multimap insert of an existing value does not grow the set, but `len += 1` regardless
-          if len + 1 > 5 then some (setPeersOf t ns (ins.filter (· != (oldestNanos, oldestPeer))))
-          else some (setPeersOf t ns ins)
+  | some _ => some (setPeersOf t ns (regStep (peersOf t ns) nanos peer))
+
+/-- most recent first: what `get_sync_peers` returns -/
+def mru (l : List (Nat × Bytes)) : List Bytes := l.reverse.map (·.2)
+
+/-- one step of the specification: the newly registered peer moves to the front, without
+duplicate, and the list is cut to five -/
+def mruStep (prev : List Bytes) (p : Bytes) : List Bytes := (p :: prev.filter (· != p)).take 5
+
+/-- a registration history (peers with times, oldest first) applied to a document's value set -/
+def runRegs (cur : List (Nat × Bytes)) : List (Nat × Bytes) → List (Nat × Bytes)
+  | [] => cur
+  | (t, p) :: rest => runRegs (regStep cur t p) rest
+
+/-- specification of the list after a history of registrations (oldest first) -/
+def mruSpec (prev : List Bytes) : List Bytes → List Bytes
+  | [] => prev
+  | p :: rest => mruSpec (mruStep prev p) rest
 
 /-- `get_sync_peers`: most recent first; `none` when empty -/
 def getSyncPeers (t : T) (ns : Bytes) : Option (List Bytes) :=
